@@ -313,12 +313,19 @@ class TranscriptInterval(AbstractFeatureInterval):
             exon_starts = self._genomic_starts
             exon_ends = self._genomic_ends
         else:
+            if self.chunk_relative_location.is_empty:
+                raise EmptyLocationException(
+                    "Cannot export chunk-relative coordinates: no part of this transcript is on the chunk"
+                )
             exon_starts, exon_ends = list(zip(*((x.start, x.end) for x in self.relative_blocks)))
         if self.cds:
             if chromosome_relative_coordinates:
                 cds_starts = self.cds._genomic_starts
                 cds_ends = self.cds._genomic_ends
                 cds_frames = [f.name for f in self.cds.frames]
+            elif self.cds.chunk_relative_location.is_empty:
+                # the exons reach the chunk, the CDS does not: the chunk-relative transcript is non-coding
+                cds_starts = cds_ends = cds_frames = None
             else:
                 cds_starts, cds_ends = list(zip(*([x.start, x.end] for x in self.chunk_relative_cds_blocks)))
                 cds_frames = [f.name for f in self.cds.chunk_relative_frames]
